@@ -161,7 +161,7 @@ def _check_input(rep, tree, case_xml, v, kind, at, routes):
             )
 
 
-STRUCTURAL = ("empty-collection", "nested-singleton", "scalar-for-collection", "wrong-scalar-for-collection", "null-item")
+STRUCTURAL = ("empty-collection", "nested-singleton", "nested-singleton-of-empty", "scalar-for-collection", "wrong-scalar-for-collection", "null-item")
 
 
 def _locus(tree, node, with_type=True):
